@@ -277,7 +277,7 @@ class C19(World):
                 tmins, tmaxs, dt, htc, htr, typ = s.t_min_star, s.t_max_star, s.dt_cont, s.htc, s.htr, s.type
                 ts, tt = s.t_supply, s.t_target
             except AttributeError as e:
-                if s.t_supply == s.t_target and s.heat_flow == 0:
+                if fl.get("degenerate") or (s.t_supply == s.t_target and s.heat_flow == 0):
                     # zero span and zero duty from the moment it became complete: the same "no stream at all" case for which
                     # the constructor raises; recorded, not judged
                     fl["degenerate"] = True
